@@ -22,10 +22,14 @@ struct TrBase { static const bool has_merge = true; static const bool has_reset 
 template<class T, int KIND> struct QuantTr : TrBase {
   typedef typename QuantTypes<T, KIND>::Sk Sk; typedef typename LessOf<T>::type C;
   static std::string nm() { return std::string(QuantTypes<T, KIND>::nm()) + "<item>"; }
-  template<int K = KIND> static typename std::enable_if<K != 1, Sk*>::type make(int arena) { return new Sk(KIND == 0 ? 8 : 2, C(), TrackAlloc<T>(arena)); }
+  template<int K = KIND> static typename std::enable_if<K != 1, Sk*>::type make(int arena) { return new Sk(KIND == 0 ? 16 : 2, C(), TrackAlloc<T>(arena)); }
   template<int K = KIND> static typename std::enable_if<K == 1, Sk*>::type make(int arena) { return new Sk(4, true, C(), TrackAlloc<T>(arena)); }
   static void a(Sk& s, int n) { s.update(Gen<T>::make(n)); }
-  static void b(Sk& s, int n) { for (int i = 0; i < 30; ++i) s.update(Gen<T>::make(100 * n + i)); }
+  // the mode-changing operation also absorbs an estimating sketch of a smaller k where the family allows it (KLL), so that
+  // state which differs from the configuration (the smallest contributing k behind the published error) exists and must be carried by copies and moves
+  template<int K = KIND> static typename std::enable_if<K == 0, void>::type absorb_smaller(Sk& s, int n) { Sk o(8, C(), s.get_allocator()); for (int i = 0; i < 40; ++i) o.update(Gen<T>::make(300 * n + i)); s.merge(o); }
+  template<int K = KIND> static typename std::enable_if<K != 0, void>::type absorb_smaller(Sk&, int) {}
+  static void b(Sk& s, int n) { for (int i = 0; i < 30; ++i) s.update(Gen<T>::make(100 * n + i)); absorb_smaller(s, n); }
   static void merge(Sk& s, const Sk& o) { s.merge(o); } static void merge_move(Sk& s, Sk&& o) { s.merge(std::move(o)); }
   static std::string obs(Sk& s) { return QObj<Sk, T, KIND>::obs_of(s); }
   static void ser(Sk& s) { s.serialize(0, typename SerdeOf<T>::type()); }
